@@ -247,7 +247,8 @@ def shapeop_case(rng, tier):
     elif op in ('symvec',):
         n = rng.randint(1, 3)
         a = intdata(rng, (D, P, n, n))
-        c['x'] = a + a.transpose(0, 1, 3, 2)
+        c['uplo'] = rng.choice(['F', 'L', 'U', None])      # None: the default argument
+        c['x'] = a + a.transpose(0, 1, 3, 2) if rng.random() < 0.3 else a     # triangular storage: the other triangle is unrelated
     elif op == 'vecsym':
         n = rng.randint(1, 3)
         c['x'] = intdata(rng, (D, P, n * (n + 1) // 2))
@@ -258,6 +259,15 @@ def shapeop_case(rng, tier):
     else:
         c['x'] = intdata(rng, (D, P) + tuple(rng.randint(1, 3) for _ in range(rng.randint(0, 2))))
     return c
+
+
+def np_symvec(a, uplo):
+    """NumPy reference for symvec: the upper-triangular entries row by row of 0.5(A+A^T) ('F'), of A ('U'), of A^T ('L')"""
+    a = np.asarray(a)
+    iu = np.triu_indices(a.shape[0])
+    if uplo == 'F':
+        return (0.5 * (a + a.T))[iu]
+    return a[iu] if uplo == 'U' else a.T[iu]
 
 
 def shapeop_fails(ctx, case):
@@ -286,7 +296,8 @@ def shapeop_fails(ctx, case):
         'ones_like': (lambda v: algopy.ones_like(v), None),
         'zeros': (lambda v: algopy.zeros((2, 3), dtype=v), None),
         'ones': (lambda v: algopy.ones((2, 3), dtype=v), None),
-        'symvec': (lambda v: algopy.symvec(v), lambda a: algopy.utils.symvec(a)),
+        'symvec': ((lambda v: algopy.symvec(v)) if case.get('uplo') is None else (lambda v: algopy.symvec(v, case['uplo'])),
+                   lambda a: np_symvec(a, case.get('uplo') or 'F')),
         'vecsym': (lambda v: algopy.vecsym(v), lambda a: algopy.utils.vecsym(a)),
     }
     f, g = fns[op]
@@ -310,6 +321,12 @@ def shapeop_fails(ctx, case):
             got = y.data[d, p]
             if np.shape(got) != np.shape(ref) or not np.allclose(got, ref, rtol=1e-12, atol=1e-12):
                 return 'shapeop-%s: coefficient slice (%d,%d) differs from the NumPy operation on that slice' % (op, d, p)
+    if op == 'symvec':
+        ul = case.get('uplo') or 'F'
+        if not np.array_equal(algopy.symvec(x[0, 0].astype(float), ul), np_symvec(x[0, 0].astype(float), ul)):
+            return 'shapeop-symvec-ndarray: algopy.symvec(ndarray, %s) differs from the NumPy reference' % ul
+        if not np.array_equal(UTPM.symvec(UTPM(x.copy()), ul).data, y.data):
+            return 'shapeop-symvec-method: UTPM.symvec(A, %s) differs from algopy.symvec(A, %s)' % (ul, ul)
     if op in ('transpose', 'T') and not np.shares_memory(y.data, u.data):
         return 'shapeop-view-%s: the transpose does not share memory with its parent' % op
     # model comparisons for the modelled structural ops
